@@ -317,16 +317,16 @@ theorem hingeHyp_of (fx : FX R) (x : Nat → V3 R) (F : List Face) (B : BendHyp 
           = V3.normSq (V3.cross (x h.n1 - x h.n2) (x h.n3 - x h.n2)) := by v3c; ring
       rw [this]; linear_combination (-1 : R) * m1
 
-theorem bending_net (fx : FX R) (x : Nat → V3 R) (F : List Face) (p : Params R)
-    (hs : Simple F) (hd : NonDeg F) (B : BendHyp fx x F) :
-    netForce (bendingContribs fx x F p) = 0 ∧ netTorque x (bendingContribs fx x F p) = 0 := by
-  unfold bendingContribs
+/-- the edge loop over any list of hinges each of which satisfies `HingeHyp` -/
+theorem bendingOf_net (fx : FX R) (x : Nat → V3 R) (p : Params R) (H : List Hinge)
+    (hH : ∀ h ∈ H, HingeHyp fx (x h.n1) (x h.n2) (x h.n3) (x h.n4) (faceGeom fx x h.f1).1 (faceGeom fx x h.f2).1
+      (faceGeom fx x h.f1).2 (faceGeom fx x h.f2).2) :
+    netForce (bendingContribsOf fx x p H) = 0 ∧ netTorque x (bendingContribsOf fx x p H) = 0 := by
+  unfold bendingContribsOf
   split_ifs
   · exact ⟨rfl, rfl⟩
-  · have hb : ∀ h ∈ hingesSorted F, _ := fun h hh =>
-      bendingHinge_balanced fx _ _ _ _ _ _ _ _ (p.ftOf h.f1.ty).bending (p.ftOf h.f2.ty).bending
-        (hingeHyp_of fx x F B h ((hingesSorted_mem F h).mp hh)
-          (hinges_oriented F hs hd h ((hingesSorted_mem F h).mp hh)))
+  · have hb : ∀ h ∈ H, _ := fun h hh =>
+      bendingHinge_balanced fx _ _ _ _ _ _ _ _ (p.ftOf h.f1.ty).bending (p.ftOf h.f2.ty).bending (hH h hh)
     constructor
     · rw [netForce_flatMap]
       apply sum_eq_zero_of_forall
@@ -339,6 +339,11 @@ theorem bending_net (fx : FX R) (x : Nat → V3 R) (F : List Face) (p : Params R
       simp only [netTorque_four]
       exact (hb h hh).2
 
+theorem bending_net (fx : FX R) (x : Nat → V3 R) (F : List Face) (p : Params R)
+    (hs : Simple F) (hd : NonDeg F) (B : BendHyp fx x F) :
+    netForce (bendingContribs fx x F p) = 0 ∧ netTorque x (bendingContribs fx x F p) = 0 :=
+  bendingOf_net fx x p (hingesSorted F) (fun h hh =>
+    hingeHyp_of fx x F B h ((hingesSorted_mem F h).mp hh) (hinges_oriented F hs hd h ((hingesSorted_mem F h).mp hh)))
 
 /-! ### all terms together, and accumulation into the nodes -/
 
@@ -453,7 +458,7 @@ theorem hinges_nodes_lt (F : List Face) (n : Nat) (hn : NodesLt F n) :
 theorem internalContribs_ids_lt (fx : FX R) (x : Nat → V3 R) (F : List Face) (p : Params R) (n : Nat)
     (hn : NodesLt F n) : ∀ c ∈ internalContribs fx x F p, c.1 < n := by
   intro c hc
-  simp only [internalContribs, pressureContribs, tensionContribs, bendingContribs, angleContribs,
+  simp only [internalContribs, pressureContribs, tensionContribs, bendingContribs, bendingContribsOf, angleContribs,
     List.mem_append, List.mem_flatMap] at hc
   rcases hc with ((⟨f, hf, hc⟩ | ⟨f, hf, hc⟩) | hc) | ⟨f, hf, hc⟩
   · obtain ⟨h1, h2, h3⟩ := hn f hf
@@ -472,5 +477,30 @@ theorem internalContribs_ids_lt (fx : FX R) (x : Nat → V3 R) (F : List Face) (
   · obtain ⟨h1, h2, h3⟩ := hn f hf
     simp only [List.mem_cons, List.not_mem_nil, or_false] at hc
     rcases hc with rfl | rfl | rfl <;> assumption
+
+
+/-! ### cells with unused slots -/
+
+/-- on a freshly built cell (edge set = `generate_edge_set` of the used faces) the slot model is the plain model
+    of the used faces -/
+theorem slots_eq_fresh (fx : FX R) (x : Nat → V3 R) (S : List Slot) (E : List EdgeRec) (p : Params R)
+    (h : E.map (hingeOfEdge S) = hingesSorted (liveFaces S)) :
+    internalContribsSlots fx x S E p = internalContribs fx x (liveFaces S) p := by
+  unfold internalContribsSlots internalContribs bendingContribs
+  rw [h]
+
+/-- a cell with unused slots: zero net force and torque, the surface of the used faces being closed and
+    every stored edge satisfying the hinge hypotheses -/
+theorem slots_net (fx : FX R) (x : Nat → V3 R) (S : List Slot) (E : List EdgeRec) (p : Params R)
+    (hc : Closed (liveFaces S)) (he : EqbOK fx) (hs : FaceSqrt fx x (liveFaces S))
+    (hH : ∀ h ∈ E.map (hingeOfEdge S), HingeHyp fx (x h.n1) (x h.n2) (x h.n3) (x h.n4) (faceGeom fx x h.f1).1
+      (faceGeom fx x h.f2).1 (faceGeom fx x h.f1).2 (faceGeom fx x h.f2).2) :
+    netForce (internalContribsSlots fx x S E p) = 0 ∧ netTorque x (internalContribsSlots fx x S E p) = 0 := by
+  unfold internalContribsSlots
+  constructor
+  · simp only [netForce_append, pressure_netForce fx x _ _ hc he hs, tension_netForce,
+      (bendingOf_net fx x p _ hH).1, angle_netForce, add_zero]
+  · simp only [netTorque_append, pressure_netTorque fx x _ _ hc he hs, tension_netTorque,
+      (bendingOf_net fx x p _ hH).2, angle_netTorque, add_zero]
 
 end Simu.Forces
